@@ -56,7 +56,11 @@ func r061as(c *an.Ctx, rule string) {
 	fs := w.AnalyseParams(fn, fn.Params[1])
 	c.Check(len(fs) == 0, rule, name+"|never writes its argument", fn.Pos(), "no mutator reaches the argument", "FilterClone writes the message it was given: "+describeFindings(c, fs)+"; the stored value loses the fields outside the mask")
 	names := map[ssa.Value]string{fn.Params[0]: "r", fn.Params[1]: "msg"}
-	leaves := an.DecisionTree(fn, an.DTConfig{Names: names})
+	// FilterClone may be written as "clone, then Filter the clone": the sibling is read in place
+	inline := func(caller, callee *ssa.Function) bool {
+		return an.InlineNewHelpers(caller, callee) || an.FuncQName(callee) == "(*"+an.ModulePath+"/pkg/masks.ResponseFilter).Filter"
+	}
+	leaves := an.DecisionTree(fn, an.DTConfig{Names: names, Inline: inline})
 	c.Count("table_rows", len(leaves))
 	type rowAgg struct {
 		ok  bool
@@ -461,12 +465,14 @@ func r062filters(c *an.Ctx, rule string) {
 					}
 					continue
 				}
-				fields, _ := litFields(v)
+				fields, lit := litFields(v)
 				if fields == nil || !filterCloneOf(fields["Value"], func(a ssa.Value) bool { return isFieldLoad(a, "Value") }) {
 					okRet = false
 				}
+				// kept: assigned from the change's own field, or left alone in a copy of the change (`filtered := *v`)
+				copied := litCopiedFrom(lit) == ssa.Value(fn.Params[0])
 				for _, f := range []string{"ChangeTime", "SeedValue", "LastSeedValue"} {
-					if !isFieldLoad(fields[f], f) {
+					if !isFieldLoad(fields[f], f) && !(copied && fields[f] == nil) {
 						okRet = false
 					}
 				}
@@ -483,14 +489,15 @@ func r062filters(c *an.Ctx, rule string) {
 					continue
 				}
 				n++
-				fields, _ := litFields(v)
+				fields, lit := litFields(v)
 				if fields == nil || !filterCloneOf(fields["NewValue"], func(a ssa.Value) bool { return isFieldLoad(a, "NewValue") }) ||
 					!filterCloneOf(fields["OldValue"], func(a ssa.Value) bool { return isFieldLoad(a, "OldValue") }) {
 					okRet = false
 					continue
 				}
+				copied := litCopiedFrom(lit) == ssa.Value(fn.Params[0])
 				for _, f := range []string{"Id", "ChangeType", "ChangeTime", "SeedValue", "LastSeedValue"} {
-					if !isFieldLoad(fields[f], f) {
+					if !isFieldLoad(fields[f], f) && !(copied && fields[f] == nil) {
 						okRet = false
 					}
 				}
